@@ -738,6 +738,45 @@ def case_C16(seed):
             viol.append((key, f"{kind} {k}: idx/best {a['idx']}/{a['best']} -> {b['idx']}/{b['best']}, same path: {same_path}",
                          {'case': U.case_repr(case), 'transform': [kind, str(k)], 'a': a, 'b': b}))
             break
+    if not viol:
+        # the planar primitives themselves commute with the maps of the plane the property names (no matcher in between):
+        # axis swap, scaling by 2^k, exact translation.  Exactly parallel / collinear / touching pairs occur by construction.
+        from leuvenmapmatching.util import dist_euclidean as de
+        r3 = random.Random(seed * 31 + 7)
+        q = lambda: (r3.randint(-8, 16) / 4, r3.randint(-8, 16) / 4)
+        for _ in range(10):
+            f1, f2, t1 = q(), q(), q()
+            if r3.random() < 0.5:
+                lam = r3.choice([1, 1, 0.5, 2, -1, -0.5])
+                t2 = (t1[0] + lam * (f2[0] - f1[0]), t1[1] + lam * (f2[1] - f1[1]))       # parallel (quarter grid: exact)
+            else:
+                t2 = q()
+            maps = [('swap', lambda p: (p[1], p[0])), ('scale 8', lambda p: (p[0] * 8, p[1] * 8)), ('translate (64,-32)', lambda p: (p[0] + 64.0, p[1] - 32.0))]
+            base = de.distance_segment_to_segment(f1, f2, t1, t2)
+            basep = de.distance_point_to_segment(t1, f1, f2)
+            for nm, T in maps:
+                k_ = 8.0 if nm.startswith('scale') else 1.0
+                got = de.distance_segment_to_segment(T(f1), T(f2), T(t1), T(t2))
+                if nm.startswith('translate'):
+                    # a translation is not exact in floats: among several equally near pairs (overlapping parallel segments) another
+                    # one may be returned; required: the same distance, realised by the returned points, positions in range
+                    ok = close(got[0], base[0], 1e-9, 1e-9) and close(math.hypot(got[1][0] - got[2][0], got[1][1] - got[2][1]), got[0], 1e-9, 1e-9) \
+                        and 0 <= got[3] <= 1 and 0 <= got[4] <= 1
+                else:
+                    # axis swap and scaling by a power of two are exact: the very same pair must come back
+                    ok = close(got[0], base[0] * k_, 1e-12, 1e-12) and all(close(a_, b_, 1e-12, 1e-12) for a_, b_ in zip(got[1], T(base[1]))) \
+                        and all(close(a_, b_, 1e-12, 1e-12) for a_, b_ in zip(got[2], T(base[2]))) and close(got[3], base[3], 1e-12, 1e-12) \
+                        and close(got[4], base[4], 1e-12, 1e-12)
+                gotp = de.distance_point_to_segment(T(t1), T(f1), T(f2))
+                okp = close(gotp[0], basep[0] * k_, 1e-9, 1e-9) and all(close(a_, b_, 1e-9, 1e-9) for a_, b_ in zip(gotp[1], T(basep[1]))) and close(gotp[2], basep[2], 1e-9, 1e-9)
+                if not (ok and okp):
+                    fn_ = 'distance_segment_to_segment' if not ok else 'distance_point_to_segment'
+                    viol.append((f'C16:{fn_}-does-not-commute-with-{nm.split(" ")[0]}',
+                                 f"{fn_}{(f1, f2, t1, t2) if not ok else (t1, f1, f2)} = {base if not ok else basep}; after {nm}: {got if not ok else gotp}",
+                                 {'inputs': [f1, f2, t1, t2], 'map': nm, 'before': repr(base if not ok else basep), 'after': repr(got if not ok else gotp)}))
+                    break
+            if viol:
+                break
     if not viol and exact and case['cfg'].get('max_lattice_width') is None:
         # a fine-grained map far from the origin: the same map scaled by 2^-11 (a grid unit of 0.5 becomes 2.4e-4), once near
         # the origin and once translated by (2^22, -2^23); every coordinate stays exact, positions carry about 1e-9 absolute
